@@ -847,6 +847,13 @@ func checkC15(c *runCtx) {
 		depth = 7
 	}
 	vtSearch(c, p, vtSpec{Name: fmt.Sprintf("TCPMuxDefault, all sequences of length <= %d, <= 3 clients of 10 kinds", depth), Model: "tcpmux", Cfg: muxCfg{Depth: depth}, Deadline: dl})
+	// one ufrag with a packet connection on each of two local addresses (both closing orders)
+	if probs, n := c15twoLocals(c.t); true {
+		c.add("transitions", n)
+		for _, pr := range probs {
+			c.violation("", "one ufrag on two local addresses: "+pr, map[string]any{"part": "two-local-addresses"})
+		}
+	}
 	vtSearch(c, p, vtSpec{Name: fmt.Sprintf("TCPMuxDefault with a write buffer, all sequences of length <= %d", depth-1), Model: "tcpmux", Cfg: muxCfg{Depth: depth - 1, WriteBuffer: 4096}, Deadline: dl})
 	vtSearch(c, p, vtSpec{Name: fmt.Sprintf("TCPMuxDefault with a 24-byte write buffer and a client that stops reading (replies queue up, the buffer fills, the client resumes), from one attached client with an open handle, all sequences of length <= %d", depth), Model: "tcpmux",
 		Cfg: muxCfg{Depth: depth, WriteBuffer: 24, StopRead: true, Preset: []string{"accept:u1", "get:u1"}}, Deadline: dl})
